@@ -1,5 +1,6 @@
 import NmlVerif.Proofs.Fault
 import NmlVerif.Proofs.Trunc
+import NmlVerif.Proofs.TruncWs
 /-!
 # C08 — a failed read or write leaves the document and the process clean
 
@@ -49,6 +50,62 @@ theorem c08_retry (s : Stmt) (h : Protected s) (oracle oracle' : Nat → List Na
   congr 1
   simp only [St.init] at this ⊢
   rw [this.1, this.2.1]
+
+/-- the state in which the *next* call of an entry point starts when the previous call ended in `s1`: the
+    process keeps whatever handles and document state the previous call left; no fault is pending; the
+    data-dependent choices are read from the input as it is now (`oracle'`) -/
+def St.again (s1 : St) (oracle' : Nat → List Nat) (kind : Nat) : St :=
+  { s1 with budget := none, fired := false, faultKind := kind, exc := 0, oracle := oracle', trace := [] }
+
+/-- **A failed call leaves no mark on the next one.**  For a protected skeleton, from any state and with any
+    fault pending (every fault point, every exception class, every oracle), the state the next call starts from
+    after the run is the state it would have started from without the run. -/
+theorem c08_failed_call_leaves_no_mark (s : Stmt) (h : Protected s) (st : St) (oracle' : Nat → List Nat)
+    (kind : Nat) : (run s st).1.again oracle' kind = st.again oracle' kind := by
+  have := c08_protected_sound s h st
+  simp only [St.again]
+  rw [this.1, this.2.1]
+
+/-- **"The same call succeeds once the cause is removed".**  Call a protected entry point with a fault at its
+    `(k+1)`-th file-layer call (any `k`, any class) on an input described by `oracle`; then call it again with
+    the fault gone, on the input as it is then (`oracle'`: the same document, or the document with the
+    offending construct removed).  The second call *is* the run of a first call on that input: same outcome,
+    same file-layer calls in the same order, same final state.  In particular it succeeds whenever a first call
+    on that input succeeds, and it ends with no handle open and the document attached. -/
+theorem c08_retry_is_first_call (s : Stmt) (h : Protected s) (oracle oracle' : Nat → List Nat) (k kind : Nat) :
+    run s ((run s (St.init oracle (some k) kind)).1.again oracle' kind) = run s (St.init oracle' none kind) := by
+  rw [c08_failed_call_leaves_no_mark s h]
+  rfl
+
+theorem c08_retry_succeeds (s : Stmt) (h : Protected s) (oracle oracle' : Nat → List Nat) (k kind : Nat)
+    (hfirst : (run s (St.init oracle' none kind)).2 = .ok) :
+    let again := run s ((run s (St.init oracle (some k) kind)).1.again oracle' kind)
+    again.2 = .ok ∧ again.1.handles = 0 ∧ again.1.detached = 0 ∧
+      again.1.trace = (run s (St.init oracle' none kind)).1.trace := by
+  simp only [c08_retry_is_first_call s h]
+  have := c08_protected_sound s h (St.init oracle' none kind)
+  exact ⟨hfirst, this.1, this.2.1, trivial⟩
+
+/-- the same after a failure that was not a file-layer error (the input itself made the call fail) -/
+theorem c08_retry_after_natural_failure (s : Stmt) (h : Protected s) (oracle oracle' : Nat → List Nat) (kind : Nat) :
+    run s ((run s (St.init oracle none kind)).1.again oracle' kind) = run s (St.init oracle' none kind) := by
+  rw [c08_failed_call_leaves_no_mark s h]
+  rfl
+
+/-- any number of failed calls in a row (each with its own fault point, class and oracle) change nothing for
+    the call that follows them -/
+theorem c08_retry_after_many (s : Stmt) (h : Protected s) (kind : Nat) (oracle' : Nat → List Nat) :
+    ∀ (faults : List (Nat × Nat × (Nat → List Nat))) (st : St),
+      (faults.foldl (fun cur f => (run s { cur.again f.2.2 f.2.1 with budget := some f.1 }).1) st).again oracle' kind
+        = st.again oracle' kind := by
+  intro faults
+  induction faults with
+  | nil => intro st; rfl
+  | cons f r ih =>
+    intro st
+    simp only [List.foldl]
+    rw [ih, c08_failed_call_leaves_no_mark s h]
+    rfl
 
 /-- the executable criterion decides protection -/
 theorem c08_criterion (s : Stmt) (h : unprotected s = []) : Protected s :=
@@ -118,6 +175,17 @@ example : ((List.range 9).all fun k =>
     (run hdf5Fixed (St.init (oracleOf [(1, [1]), (2, [2]), (4, [1])]) (some k) 1)).1.detached == 0) = true := by
   decide
 
+/-- the hypothesis of `c08_retry_succeeds` is met: a first call of the repaired HDF5 writer on a document with one
+    network succeeds; so does the retry after a fault at any of its nine file-layer calls (instance, evaluated) -/
+example : (run hdf5Fixed (St.init (oracleOf [(1, [1]), (2, [2]), (4, [1])]) none 1)).2 = .ok := by decide
+example : ((List.range 9).all fun k =>
+    (run hdf5Fixed ((run hdf5Fixed (St.init (oracleOf [(1, [1]), (2, [2]), (4, [1])]) (some k) 1)).1.again
+      (oracleOf [(1, [1]), (2, [2]), (4, [1])]) 1)).2 == .ok) = true := by decide
+/-- … while the old shape, after its embedded-XML step has failed once, starts the next call with the networks
+    still detached and a handle open: the failed call has left its mark -/
+example : ((run hdf5Old (St.init (oracleOf [(5, [1])]) none 0)).1.again (oracleOf []) 0).detached = 1 ∧
+    ((run hdf5Old (St.init (oracleOf [(5, [1])]) none 0)).1.again (oracleOf []) 0).handles = 1 := by decide
+
 /-- **Full statement for the array-morphology writer** (kept visible; false today): at every fault point the
     document is left as it was. -/
 def c08_arraymorph_full : Prop :=
@@ -134,6 +202,23 @@ theorem c08_arraymorph_partial (st : St) :
 theorem c08_arraymorph_witness : ¬ c08_arraymorph_full := by
   intro h
   have := (h (St.init (oracleOf [(1, [1]), (2, [1])]) (some 2) 1)).2
+  revert this
+  decide
+
+/-- the retry clause for the same writer, full (false today): a failed call leaves no mark on the next call -/
+def c08_arraymorph_retry_full : Prop :=
+  ∀ (st : St) (oracle' : Nat → List Nat) (kind : Nat), (run amwToday st).1.again oracle' kind = st.again oracle' kind
+
+/-- strongest true restriction: the next call starts as a first call would, except that the document still
+    carries the ids the failed call assigned -/
+theorem c08_arraymorph_retry_partial (st : St) (oracle' : Nat → List Nat) (kind : Nat) :
+    (run amwToday st).1.again oracle' kind = { st.again oracle' kind with detached := (run amwToday st).1.detached } := by
+  have := c08_arraymorph_partial st
+  simp only [St.again, this.1]
+
+theorem c08_arraymorph_retry_witness : ¬ c08_arraymorph_retry_full := by
+  intro h
+  have := congrArg St.detached (h (St.init (oracleOf [(1, [1]), (2, [1])]) (some 2) 1) (oracleOf []) 1)
   revert this
   decide
 
@@ -177,3 +262,81 @@ example : Complete (tokens (.node 1 [.leaf 2, .node 3 [.text], .text])) := by de
 example : ¬ Complete (cutTokens (tokens (.node 1 [.leaf 2, .node 3 [.text], .text])) 4 false) := by decide
 
 end NmlVerif.Trunc
+
+namespace NmlVerif.TruncWs
+
+/-! ### truncation, with the writer's white space (second pass)
+
+A written file is `tokens root ++ trail n`: the root element (`<neuroml …> … </neuroml>`) followed by the white
+space after its end tag (the writer emits one line feed, `n = 1`).  A byte cut leaves `k` whole tokens and the rest
+`r` of the next one (`cut`).  The cut is *strictly inside the document* iff `k < (tokens root).length`, i.e.
+iff at least the last byte of the root's end tag is lost. -/
+
+/-- the whole file is accepted, whatever white space follows the root (the clause below is not vacuous) -/
+theorem c08_ws_whole_accepted (x : Tree) (hx : x.isElement = true) (n : Nat) : Complete (tokens x ++ trail n) := by
+  unfold Complete
+  rw [scan_append, scan_tokens_root x hx]
+  exact scan_trail n _
+
+/-- **An XML file cut off at any byte strictly inside the document is rejected**: for every element tree, every
+    amount of trailing white space, every number `k` of surviving whole tokens smaller than the number of tokens of
+    the root element, and every kind of rest of the cut token (nothing, a broken markup token, shorter character
+    data, shorter white space), the remaining token stream is not a complete document — nothing was read, or an
+    element is still open, or a token is broken. -/
+theorem c08_ws_truncated_rejected (x : Tree) (hx : x.isElement = true) (n k : Nat) (hk : k < (tokens x).length)
+    (r : Rest) : ¬ Complete (cut (tokens x ++ trail n) k r) := by
+  have htake : (tokens x ++ trail n).take k = (tokens x).take k := by
+    rw [List.take_append_of_le_length (Nat.le_of_lt hk)]
+  have hsplit : (tokens x).take k ++ (tokens x).drop k = tokens x := List.take_append_drop k _
+  have hq : (tokens x).drop k ≠ [] := by
+    intro h
+    have := congrArg List.length h
+    simp at this
+    omega
+  obtain ⟨d', hb, hpos⟩ := prefix_root x hx _ _ hsplit hq
+  unfold Complete cut
+  rw [htake, scan_append, hb]
+  cases r with
+  | boundary => simp [Rest.toks, scan]
+  | markup => simp [Rest.toks, scan, step]
+  | chars =>
+    cases d' with
+    | zero => simp [Rest.toks, scan, step]
+    | succ d => simp [Rest.toks, scan, step]
+  | blank => simp [Rest.toks, scan, step]
+
+/-- **A prefix that only loses trailing white space is a complete document, and the same one**: when all tokens
+    of the root element survive (`k ≥ (tokens x).length`, the cut falls in the white space after `</neuroml>`),
+    what is left is accepted, and it is the same root element followed by less white space. -/
+theorem c08_ws_only_trailing_space_lost (x : Tree) (hx : x.isElement = true) (n k : Nat)
+    (hk : (tokens x).length ≤ k) (r : Rest) (hr : r = .boundary ∨ r = .blank) :
+    Complete (cut (tokens x ++ trail n) k r) ∧
+      ∃ m, cut (tokens x ++ trail n) k r = tokens x ++ trail m ∧ m ≤ n + 1 := by
+  have htake : (tokens x ++ trail n).take k = tokens x ++ trail (min (k - (tokens x).length) n) := by
+    rw [List.take_append, List.take_of_length_le hk]
+    simp [trail, List.take_replicate]
+  have hform : ∃ m, cut (tokens x ++ trail n) k r = tokens x ++ trail m ∧ m ≤ n + 1 := by
+    rcases hr with hr | hr
+    · refine ⟨min (k - (tokens x).length) n, ?_, by omega⟩
+      simp [cut, htake, hr, Rest.toks]
+    · refine ⟨min (k - (tokens x).length) n + 1, ?_, by omega⟩
+      simp only [cut, htake, hr, Rest.toks, List.append_assoc]
+      congr 1
+      simp [trail, List.replicate_succ']
+  obtain ⟨m, hm, hle⟩ := hform
+  exact ⟨by rw [hm]; exact c08_ws_whole_accepted x hx m, m, hm, hle⟩
+
+/-- the writer's layout on a small document: `<neuroml>⏎␣<notes>text</notes>⏎␣<cell/>⏎</neuroml>⏎` -/
+def sample : Tree := .node 1 [.ws, .node 2 [.text], .ws, .leaf 3, .ws]
+
+example : sample.isElement = true := rfl
+example : Complete (tokens sample ++ trail 1) := by decide
+example : (tokens sample).length = 9 := by decide
+/-- every cut of the sample, every kind of rest: rejected strictly inside, accepted once only the final line feed
+    (or part of it) is lost -/
+example : ((List.range 9).all fun k => [Rest.boundary, .markup, .chars, .blank].all fun r =>
+    !decide (Complete (cut (tokens sample ++ trail 1) k r))) = true := by decide
+example : Complete (cut (tokens sample ++ trail 1) 9 .boundary) ∧ Complete (cut (tokens sample ++ trail 1) 9 .blank) := by
+  decide
+
+end NmlVerif.TruncWs
